@@ -97,6 +97,202 @@ def solved_instances():
     return problems, info
 
 
+# ------------------------------------------------------------------ end to end: the real PEP.solve with a scripted wrapper
+def _scripted_wrapper():
+    """a Wrapper that records what PEP sends and answers solve() with a fixed feasible-looking point and, as dual
+    value of the k-th item it was sent, the signed tag K.dual_tag(k) (a zero matrix for an LMI): no numerical solver,
+    but the REAL path  set_class_constraints -> send -> solve -> assign_dual_values -> tables"""
+    import numpy as np
+    from PEPit import Point, Expression
+    from PEPit.wrapper import Wrapper
+
+    class ScriptedWrapper(Wrapper):
+        def check_license(self):
+            return True
+
+        def set_main_variables(self):
+            pass
+
+        def send_constraint_to_solver(self, constraint):
+            self._list_of_constraints_sent_to_solver.append(constraint)
+
+        def send_lmi_constraint_to_solver(self, psd_counter, psd_matrix):
+            self._list_of_constraints_sent_to_solver.append(psd_matrix)
+
+        def generate_problem(self, objective):
+            self.objective = objective
+            return None
+
+        def solve(self, **kwargs):
+            self.n_solves = getattr(self, "n_solves", 0) + 1
+            self.optimal_G = np.identity(Point.counter)
+            self.optimal_F = np.zeros(Expression.counter)
+            self.optimal_F[self.objective.counter] = 1.0      # check_feasibility asserts value == objective
+            return "optimal", "scripted", 1.0
+
+        def _recover_dual_values(self):
+            n = self.optimal_G.shape[0]
+            duals = []
+            for k, it in enumerate(self._list_of_constraints_sent_to_solver):
+                if type(it).__name__ == "PSDMatrix":
+                    duals.append(np.zeros(it.shape))
+                else:
+                    duals.append(K.dual_tag(k))
+            return [np.zeros((n, n))] + duals, np.zeros((n, n))
+
+        def prepare_heuristic(self, wc_value, tol_dimension_reduction):
+            pass
+
+        def heuristic(self, weight):
+            pass
+    return ScriptedWrapper
+
+
+VACUOUS = ["repeated-point:ConvexFunction", "repeated-point:ConvexLipschitzFunction",
+           "repeated-point:ConvexIndicatorFunction", "quadratic", "stationary:ConvexQGFunction"]
+
+
+def solve_case(desc):
+    """one end-to-end case; desc = dict(scenario, case_seed, primal_or_dual, heuristic).  Returns (problems, info)."""
+    import warnings
+    from PEPit import PEP, Point, Function
+    from PEPit.constraint import Constraint
+    from . import recording
+    rng = random.Random(desc["case_seed"])
+    sc = desc["scenario"]
+    if sc.startswith("repeated-point:"):
+        # two subgradients at ONE point of a non-differentiable class: the two conditions between them read 0 <= 0
+        name = sc.split(":")[1]
+        pep = PEP()
+        func = K.declare(pep, rng, name, K.draw_params(rng, name), False)
+        x, y = Point(), Point()
+        func.oracle(x)
+        func.oracle(x)
+        func.oracle(y)
+    elif sc == "quadratic":
+        # the (x*, x*) value / symmetry conditions of the quadratic class are 0 == 0
+        name = "SmoothStronglyConvexQuadraticFunction"
+        pep = PEP()
+        func = K.declare(pep, rng, name, K.draw_params(rng, name), False)
+        func.oracle(Point())
+        func.oracle(Point())
+    elif sc.startswith("stationary:"):
+        name = sc.split(":")[1]
+        pep = PEP()
+        func = K.declare(pep, rng, name, K.draw_params(rng, name), False)
+        func.stationary_point()
+        func.oracle(Point())
+    else:
+        name = sc
+        func, ctx = K.build_function(rng, name)
+        pep = ctx["pep"]
+        # (an LMI over an empty list of samples is a 0 x 0 matrix, which PEP.check_feasibility cannot handle:
+        # outside C17, avoided here)
+        if not func.list_of_points:
+            func.oracle(Point())
+        if name == "LinearOperator" and not func.T.list_of_points:
+            func.T.gradient(Point())
+    x0 = Point()
+    pep.set_initial_condition(x0 ** 2 <= 1)
+    pep.set_performance_metric(x0 ** 2)
+    last = recording.install(_scripted_wrapper())
+    problems = []
+    with warnings.catch_warnings():
+        warnings.simplefilter("ignore")
+        try:
+            kw = dict(wrapper=recording.NAME, verbose=0, return_primal_or_dual=desc["primal_or_dual"])
+            if desc["heuristic"]:
+                kw["dimension_reduction_heuristic"] = desc["heuristic"]
+            out = pep.solve(**kw)
+        except Exception as e:
+            return [dict(kind="C17-solve-raised", error=repr(e)[:300])], {}
+    w = last()
+    sent_w = w._list_of_constraints_sent_to_solver
+    sent_p = pep._list_of_constraints_sent_to_wrapper
+    n_tab = n_vac = 0
+    for f in [g for g in Function.list_of_functions if g.get_is_leaf()]:
+        if not f.tables_of_constraints:
+            continue
+        try:
+            duals = f.get_class_constraints_duals()
+        except Exception as e:
+            problems.append(dict(kind="C17-dual-tables-accessor-raised-after-solve", function=K.function_id(f),
+                                 error=repr(e)[:200],
+                                 without_multiplier=sum(1 for c in f.list_of_class_constraints
+                                                        if c._dual_variable_value is None)))
+            break
+        for key, df in f.tables_of_constraints.items():
+            cells, dv = df.values, duals[key].values
+            for i in range(cells.shape[0]):
+                for j in range(cells.shape[1]):
+                    el = cells[i][j]
+                    if not isinstance(el, Constraint):
+                        if K.T.to_fraction(dv[i][j]) != 0:
+                            problems.append(dict(kind="C17-dual-nonzero-without-constraint", condition=key, i=i, j=j))
+                        continue
+                    n_tab += 1
+                    if not el.expression.decomposition_dict or \
+                            all(v == 0 for v in el.expression.decomposition_dict.values()):
+                        n_vac += 1
+                    pos_w = [k for k, it in enumerate(sent_w) if it is el]
+                    pos_p = [k for k, it in enumerate(sent_p) if it is el]
+                    if len(pos_w) != 1 or len(pos_p) != 1:
+                        problems.append(dict(kind="C17-tabulated-constraint-sent-%d-times" % len(pos_w), condition=key,
+                                             i=i, j=j, name=el.get_name()))
+                    elif K.T.to_fraction(dv[i][j]) != K.T.to_fraction(K.dual_tag(pos_w[0])):
+                        problems.append(dict(kind="C17-entry-is-not-the-multiplier-returned-for-that-constraint",
+                                             condition=key, i=i, j=j, got=str(dv[i][j]), sent_at=pos_w[0],
+                                             want=str(K.dual_tag(pos_w[0]))))
+                    if problems:
+                        break
+                if problems:
+                    break
+            if problems:
+                break
+        if problems:
+            break
+    return problems[:1], dict(tabulated=n_tab, vacuous=n_vac, sent=len(sent_w), solves=getattr(w, "n_solves", 0))
+
+
+def solve_descs(tier, seed):
+    rng = random.Random(seed * 7 + 1717)
+    out = []
+    reps = 1 if tier == "quick" else 6
+    combos = [("dual", None), ("primal", None), ("dual", "trace"), ("primal", "logdet2")]
+    for _ in range(reps):
+        for sc in VACUOUS + K.ALL_CLASSES:
+            for pd, h in (combos if sc in VACUOUS else [rng.choice(combos[:2]), rng.choice(combos)]):
+                out.append(dict(scenario=sc, case_seed=rng.getrandbits(48), primal_or_dual=pd, heuristic=h))
+    return out
+
+
+def solve_stream(tier, seed):
+    import time
+    t0 = time.time()
+    problems, n, tab, vac, hist = [], 0, 0, 0, {}
+    samples = []
+    for desc in solve_descs(tier, seed):
+        pr, info = solve_case(desc)
+        n += 1
+        tab += info.get("tabulated", 0)
+        vac += info.get("vacuous", 0)
+        key = "%s/%s" % (desc["primal_or_dual"], desc["heuristic"])
+        hist[key] = hist.get(key, 0) + 1
+        for p in pr:
+            problems.append(dict(case=desc, **p))
+        if len(samples) < 2:
+            samples.append(dict(case=desc, info=info))
+    return dict(name="c17_solve_path", evaluations=n, distinct_nontrivial=n,
+                rule="one evaluation = one real PEP.solve(wrapper=<scripted wrapper>) on a class scenario (all 24 "
+                     "classes, plus scenarios with vacuous conditions 0 <= 0 / 0 == 0), return_primal_or_dual in "
+                     "{dual, primal}, dimension_reduction_heuristic in {None, trace, logdet2}; the wrapper returns the "
+                     "signed tag of the send position as multiplier; every tabulated constraint must have been sent "
+                     "exactly once and its dual-table entry must be the tag of that position; distinct by case seed",
+                mismatches=[], n_mismatch=0, problems=problems[:5], n_problems=len(problems), samples=samples,
+                distribution=dict(options=hist, tabulated_constraints=tab, vacuous_tabulated_constraints=vac,
+                                  seconds=round(time.time() - t0, 1)))
+
+
 def correspondence(tier, seed, corpus):
     st = S.run_stream("c17_classgen", tier, seed + 17, on_case=_direct)
     # regression case of the repaired F-C17b (reported as a violation if it ever fails again)
@@ -110,7 +306,7 @@ def correspondence(tier, seed, corpus):
     st["rule"] += ("; injected dual values are -1/4, 3/4, -5/4, ... by position (both signs, distinct, non-zero) and "
                    "each dual-table entry is compared with the value stored on the object at that pair; plus two solved "
                    "instances with equality tables (negative multipliers)")
-    return [st]
+    return [st, solve_stream(tier, seed)]
 
 
 def search(tier, seed):
@@ -160,6 +356,8 @@ def replay(payload):
     case = payload.get("case")
     if payload.get("kind") == "regression-F-C17b":
         return bool(S.regression_linear_adjoint())
+    if case and "scenario" in case:
+        return bool(solve_case(case)[0])
     if payload.get("kind", "").startswith("C17-solved-"):
         return bool(solved_instances()[0])
     if payload.get("kind") == "implementation-raised" and case:
